@@ -352,6 +352,7 @@ func checkFlow(p flowParams, x *verifkit.Exec) []verifkit.Violation {
 		x.Obs["leak"] = x.LeakStacks
 	}
 	x.Obs["statuses"] = statuses
+	a.checkRecovery(x)
 	return a.out
 }
 
@@ -414,3 +415,135 @@ func (a *analysis) checkDrained(when string, at int, epoch map[string]int, emitt
 		}
 	}
 }
+
+
+// checkRecovery is the C10 oracle: fatal causes degrade (and stay), transient ones recover within the configured
+// bounds, stopped stays stopped.
+func (a *analysis) checkRecovery(x *verifkit.Exec) {
+	p := a.p
+	rec := stack.DefaultRecovery()
+	maxRetries := rec.MaxRetries
+	if p.Retries > 0 {
+		maxRetries = int64(p.Retries)
+	} else if p.Retries < 0 {
+		maxRetries = 0
+	}
+	type stEv struct {
+		status string
+		seq    int
+		t      time.Duration
+	}
+	var sts []stEv
+	var opens []verifkit.Event
+	fatalInjected, fatalInjectedSeq := "", -1 // a cause the property lists as fatal entered the engine
+	userStopSeq, userStopOK, shutdownSeq := -1, false, -1
+	lastUserStart := -1
+	transientInRun := 0
+	for _, e := range a.evs {
+		switch {
+		case e.Comp == "db" && e.Kind == "put" && strings.HasPrefix(e.Arg, "pipeline:instance:"):
+			parts := strings.SplitN(e.Arg, "|", 2)
+			if len(parts) == 2 {
+				_, status, _ := stack.ParseDescribe(parts[1])
+				if status != "" && (len(sts) == 0 || sts[len(sts)-1].status != status) {
+					sts = append(sts, stEv{status, e.Seq, e.T})
+				}
+			}
+		case isSource(e.Comp) && e.Kind == "open":
+			opens = append(opens, e)
+			transientInRun = 0
+		case e.Kind == "openfail" || e.Kind == "runerr" || e.Kind == "readerr":
+			transientInRun++ // the run is already failing for a transient reason: that first cause decides its fate
+		case e.Comp == "dlq" && e.Kind == "nack":
+			if transientInRun == 0 && fatalInjected == "" {
+				fatalInjected, fatalInjectedSeq = "a DLQ write failed (the DLQ rejected the record)", e.Seq
+			}
+		case e.Comp == "ctl" && e.Kind == "call" && (e.Arg == "stopwait" || e.Arg == "stop"):
+			userStopSeq = e.Seq
+		case e.Comp == "ctl" && (e.Kind == "stopwait.ret" || e.Kind == "stop.ret") && e.Arg == "nil":
+			userStopOK = true
+		case e.Comp == "ctl" && e.Kind == "call" && e.Arg == "stopall":
+			shutdownSeq = e.Seq
+		case e.Comp == "ctl" && e.Kind == "call" && (e.Arg == "start" || e.Arg == "restart"):
+			lastUserStart = e.Seq
+		}
+	}
+	final := ""
+	if len(sts) > 0 {
+		final = sts[len(sts)-1].status
+	}
+	// R1/R2/R6: nothing reopens a pipeline after a terminal status unless a user starts it
+	for _, s := range sts {
+		if s.status != "Degraded" && s.status != "UserStopped" && s.status != "SystemStopped" {
+			continue
+		}
+		for _, o := range opens {
+			if o.Seq > s.seq && lastUserStart < s.seq {
+				a.bad("C10/restarted-after-"+strings.ToLower(s.status), "the pipeline reached status %s (event #%d) and was opened again automatically (source %s opened at event #%d)", s.status, s.seq, o.Comp, o.Seq)
+				break
+			}
+		}
+	}
+	// R5: a fatal cause degrades the pipeline and is never recovered from
+	if fatalInjected != "" && !x.StepCapHit && x.W.SlowestAnswer() < 5*time.Second {
+		for _, s := range sts {
+			if s.seq > fatalInjectedSeq && s.status == "Recovering" {
+				a.bad("C10/fatal-cause-recovered/"+p.Engine, "%s (event #%d), a fatal cause, but the pipeline went to Recovering (event #%d) instead of Degraded", fatalInjected, fatalInjectedSeq, s.seq)
+				break
+			}
+		}
+		if final != "Degraded" && final != "" && forceless(a.evs) && userStopSeq < 0 {
+			recovering := false
+			for _, s := range sts {
+				if s.seq > fatalInjectedSeq && s.status == "Recovering" {
+					recovering = true
+				}
+			}
+			if !recovering {
+				a.bad("C10/fatal-cause-not-degraded/"+p.Engine, "%s (event #%d), a fatal cause, but the pipeline ended %s instead of Degraded (status history %v)", fatalInjected, fatalInjectedSeq, final, statusNames(sts2names(sts)))
+			}
+		}
+	}
+	// R3/R4: transient -> restart after a back-off within [MinDelay, MaxDelay], at most MaxRetries attempts in the window
+	attempts := 0
+	for i, s := range sts {
+		if s.status != "Recovering" {
+			continue
+		}
+		// the next open after this status
+		for _, o := range opens {
+			if o.Seq > s.seq {
+				d := o.T - s.t
+				if d < rec.MinDelay || d > rec.MaxDelay+time.Second {
+					a.bad("C10/backoff-out-of-bounds", "recovery restart %v after the failure (event #%d -> #%d); configured bounds [%v, %v]", d, s.seq, o.Seq, rec.MinDelay, rec.MaxDelay)
+				}
+				attempts++
+				break
+			}
+		}
+		_ = i
+	}
+	if int64(attempts) > maxRetries && sts[len(sts)-1].t-sts[0].t < rec.MaxRetriesWindow {
+		a.bad("C10/too-many-recovery-attempts", "%d automatic restarts within the retry window although MaxRetries is %d", attempts, maxRetries)
+	}
+	// user stop / shutdown end in the matching stopped status
+	if userStopOK && userStopSeq >= 0 && a.healthy && final != "UserStopped" && final != "" {
+		a.bad("C10/user-stop-status", "the user stopped the pipeline (event #%d) but it ended %s", userStopSeq, final)
+	}
+	if shutdownSeq >= 0 && a.healthy && final != "SystemStopped" && final != "" && !x.StepCapHit {
+		a.bad("C10/shutdown-status", "the server shut down gracefully (StopAll at event #%d) but the pipeline ended %s, not SystemStopped", shutdownSeq, final)
+	}
+}
+
+func forceless(evs []verifkit.Event) bool {
+	for _, e := range evs {
+		if e.Comp == "ctl" && e.Kind == "call" && e.Arg == "force" {
+			return false
+		}
+	}
+	return true
+}
+
+func sts2names[T any](s []T) []T { return s }
+
+func statusNames(v any) string { return fmt.Sprintf("%v", v) }
